@@ -22,6 +22,8 @@ JudgeRun(e) ==
       wrote == e.write /\ ~e.dry
       d2 == DfltWithUid(env.dflt, e.afteruid) IN
   IF ~e.ran /\ e.failed /\ wrote /\ effs["url"] # Null
+     \* (omitting end tags with an OFX 2 version is a configuration no request can be made from)
+     /\ ~(effs["unclosedelements"] = <<116, 114, 117, 101>> /\ effs["version"] # <<>> /\ effs["version"][1] = 50)
   THEN << <<"writing-run-completed " \o e.exc, FALSE>> >>     \* a --write run with a usable configuration must not fail
   ELSE IF ~e.ran
   THEN \* ofxget refused to run or failed (e.g. no URL from any source): only "nothing stored" is judged for a run that was
